@@ -632,6 +632,10 @@ func c01LoadDuringFailingPass(c *vk.Ctx) int {
 
 // C11 — precision.
 func C11(c *vk.Ctx) {
+	if os.Getenv("VERIF_ONLY") == "c11guided" { // debugging aid: only the guided experiments
+		c.Add("traces_validated_against_impl", int64(staleBackgroundLoad(c, "C11")+loadersReplay(c, "C11")+rejectedThenAccepted(c)))
+		return
+	}
 	cfgs := []HubCfg{
 		{Mode: "crl_only", Sig: "verify", Strict: false, Fetch: "actively", Disk: true, TrustA: false, Conf: "none", Ocsp: "noaia"},
 		{Mode: "crl_only", Sig: "verify", Strict: true, Fetch: "actively", Disk: false, TrustA: true, Conf: "url", Ocsp: "noaia"},
